@@ -67,6 +67,7 @@ fn render(op: Op, empty: Option<usize>) -> String {
         ExtendHuge(i, n) => format!("{{ let items: Vec<char> = ['x', 'é'].into_iter().take({n}).collect(); struct Huge<I>(I); impl<I: Iterator> Iterator for Huge<I> {{ type Item = I::Item; fn next(&mut self) -> Option<I::Item> {{ self.0.next() }} fn size_hint(&self) -> (usize, Option<usize>) {{ (1 << 60, None) }} }} s{i}.as_mut().unwrap().extend(Huge(items.clone().into_iter())); m{i}.as_mut().unwrap().extend(items); }}"),
         AddAssign(i) => format!("*s{i}.as_mut().unwrap() += \"xy\"; *m{i}.as_mut().unwrap() += \"xy\";"),
         Add(i) => format!("s{i} = s{i}.take().map(|x| x + \"xy\"); m{i} = m{i}.take().map(|x| x + \"xy\");"),
+        WriteFmtBad(i, kind) => format!("{{ use std::fmt::Write; struct Bad(u8); impl std::fmt::Display for Bad {{ fn fmt(&self, f: &mut std::fmt::Formatter<'_>) -> std::fmt::Result {{ f.write_str(\"[1|\")?; if self.0 == 0 {{ Err(std::fmt::Error) }} else {{ panic!(\"display panics\") }} }} }} call!(s{i}, m{i}, write_fmt(format_args!(\"<{{}}>{{}}{{}}\", 5, Bad({kind}), \"tail\")).is_ok()); }}"),
         WriteFmt(i) => format!("{{ use std::fmt::Write; write!(s{i}.as_mut().unwrap(), \"{{}}{{}}\", 7, \"w\").unwrap(); write!(m{i}.as_mut().unwrap(), \"{{}}{{}}\", 7, \"w\").unwrap(); }}"),
     }
 }
